@@ -132,7 +132,7 @@ def conv_name_writer(conv, prefix):
         q = timeflow.analyse(conv, timeflow.Q(carrier, gran="1us"))
         if q is not None and q.carrier == "int" and q.unit == "ms":
             uses = " ".join(q.ops)
-            if kind == "duration" and ("total_seconds" in uses or "// (integer floor)" in uses):
+            if kind == "duration" and ("total_seconds" in uses or "// (integer floor)" in uses or "timedelta / timedelta" in uses):
                 return name
             if kind == "timestamp" and ("timestamp()" in uses or "datetime - epoch" in uses):
                 return name
@@ -146,6 +146,8 @@ def conv_name_writer(conv, prefix):
 def neutral_prefix(p):
     if p["k"] == "varint":
         return {"k": "varint", "max": p.get("max", 5)}
+    if p["k"] == "single-byte":
+        return {"k": "single-byte", "max_value": p.get("max_value"), "why": p.get("why")}
     return {"k": "fixed", "fmt": p["fmt"]}
 
 
@@ -238,7 +240,9 @@ def neutral_w(d):
 # ------------------------------------------------------------------ comparisons
 
 def _cmp_prefix(a, b, where, out):
-    if a["k"] != b["k"]:
+    if a["k"] == "single-byte":
+        out.append(f"{where}: {a.get('why')}")
+    elif a["k"] != b["k"]:
         out.append(f"{where}: length/value prefix is {a} but {b} is prescribed")
     elif a["k"] == "fixed" and a["fmt"] != b["fmt"]:
         out.append(f"{where}: struct format {a['fmt']!r} but {b['fmt']!r} is prescribed")
@@ -251,7 +255,9 @@ def cmp_writer(w, s, where="field") -> list[str]:
     out = []
     if s["k"] == "invalid":
         return [f"{where}: the specification has no encoding here: {s['why']}"]
-    if w["k"] in ("opaque", "missing", "other"):
+    if w["k"] == "opaque":
+        return []  # an analysis limit, recorded by the caller; never a verdict
+    if w["k"] in ("missing", "other"):
         return [f"{where}: writer not understood: {w}"]
     if w["k"] != s["k"]:
         return [f"{where}: writer emits a {w['k']} but the specification prescribes a {s['k']}"]
@@ -282,7 +288,9 @@ def cmp_reader(r, s, where="field") -> list[str]:
     out = []
     if s["k"] == "invalid":
         return [f"{where}: the specification has no encoding here: {s['why']}"]
-    if r["k"] in ("opaque", "missing", "other"):
+    if r["k"] == "opaque":
+        return []
+    if r["k"] in ("missing", "other"):
         return [f"{where}: reader not understood: {r}"]
     if r["k"] != s["k"]:
         return [f"{where}: reader accepts a {r['k']} but the specification prescribes a {s['k']}"]
@@ -315,14 +323,18 @@ def cmp_rw(r, w, where="field", nullable=True) -> list[str]:
     """Sibling agreement: the reader accepts exactly what the writer of a well-typed value emits."""
     out = []
     for side, d in (("reader", r), ("writer", w)):
-        if d["k"] in ("opaque", "missing", "other"):
+        if d["k"] == "opaque":
+            return []
+        if d["k"] in ("missing", "other"):
             return [f"{where}: {side} not understood: {d}"]
     if r["k"] != w["k"]:
         return [f"{where}: writer emits a {w['k']} but the reader expects a {r['k']}"]
     k = r["k"]
     if k in ("scalar", "lenpref", "array", "marked"):
         a, b = r["prefix"], w["prefix"]
-        if a["k"] != b["k"] or a.get("fmt") != b.get("fmt"):
+        if b["k"] == "single-byte":
+            out.append(f"{where}: {b.get('why')}; the reader takes the set continuation bit as the start of a longer varint")
+        elif a["k"] != b["k"] or a.get("fmt") != b.get("fmt"):
             out.append(f"{where}: writer prefix {b} vs reader prefix {a}")
     if k == "scalar":
         rc, wc = r["conv"], w["conv"]
@@ -346,3 +358,49 @@ def cmp_rw(r, w, where="field", nullable=True) -> list[str]:
     if k == "struct" and r.get("class") != w.get("class"):
         out.append(f"{where}: writer nested struct {w.get('class')} vs reader {r.get('class')}")
     return out
+
+
+# ------------------------------------------------------------------ length guards
+
+def _len_bound(cond, holds):
+    """Upper bound on len(payload) implied by one writer guard (JSON cond over the hole), or None."""
+    if not isinstance(cond, (list, tuple)) or len(cond) != 3 or cond[0] not in ("le", "lt", "ge", "gt"):
+        return None
+    op, a, b = cond
+
+    def const(t):
+        return t[1] if isinstance(t, (list, tuple)) and len(t) == 2 and t[0] == "k" and isinstance(t[1], int) else None
+
+    def len_plus(t):
+        if isinstance(t, (list, tuple)) and len(t) == 2 and t[0] == "len":
+            return 0
+        if isinstance(t, (list, tuple)) and len(t) == 3 and t[0] == "add" and isinstance(t[1], (list, tuple)) and t[1][:1] in (["len"], ("len",)) \
+                and const(t[2]) is not None:
+            return const(t[2])
+        return None
+    if const(b) is not None and len_plus(a) is not None:
+        c, off = const(b), len_plus(a)
+    elif const(a) is not None and len_plus(b) is not None:
+        c, off = const(a), len_plus(b)
+        op = {"le": "ge", "lt": "gt", "ge": "le", "gt": "lt"}[op]
+    else:
+        return None
+    if not holds:
+        op = {"le": "gt", "lt": "ge", "ge": "lt", "gt": "le"}[op]
+    if op == "le":
+        return c - off
+    if op == "lt":
+        return c - 1 - off
+    return None  # a lower bound
+
+
+def max_len_accepted(guards):
+    bounds = [b for b in (_len_bound(g.get("cond"), g.get("holds")) for g in guards or []) if b is not None]
+    return min(bounds) if bounds else None
+
+
+def length_capacity(prefix, bias):
+    if prefix.get("k") != "fixed":
+        return None
+    bits = {"b": 7, "h": 15, "i": 31, "q": 63, "B": 8, "H": 16, "I": 32, "Q": 64}.get(prefix["fmt"][-1])
+    return None if bits is None else (1 << bits) - 1 - bias
